@@ -32,7 +32,7 @@ pub fn def() -> PropDef {
 #[derive(Clone, Debug, Serialize, Deserialize)]
 pub enum Source {
     Hits(HitEvent),
-    /// (start wire, length) blocks; every wire of a block carries 1-2 pulses; pad clusters have neighbour fractions 0.27-0.63, one in twelve far below 1e-3
+    /// (start wire, length) blocks; every wire of a block carries 1-2 pulses; pad clusters have neighbour fractions 0.27-0.63, one in twelve far below 1e-3, one in four cut to two rows; in one event in four all clusters lie within seven rows of one z, so that neighbouring columns carry data on adjacent rows
     Blocks { blocks: Vec<(u16, u16)>, seed: u64, bins: u16 },
     Forward(Truth),
 }
@@ -78,12 +78,20 @@ impl SymCase {
                             if r & 0x100 == 0 {
                                 // matching pad cluster
                                 let col = geometric_column(wire);
-                                let row = 1 + ((r >> 12) % 574) as usize;
+                                // one event in four keeps all its clusters within a few rows of one z (as the
+                                // pads along a track are): neighbouring columns then hold data on adjacent rows
+                                let flat_event = (*seed >> 7) & 3 == 0;
+                                let row = if flat_event { 1 + ((*seed >> 20) % 560) as usize + ((r >> 12) % 7) as usize } else { 1 + ((r >> 12) % 574) as usize };
                                 let pamp = 150.0 + ((r >> 24) % 9000) as f64 / 10.0;
                                 // one cluster in twelve is very narrow: both neighbours far below a thousandth of the peak, and unequal
                                 let narrow = (r >> 52) % 12 == 0;
                                 let (lo, hi) = if narrow { (2e-5 * (1 + r % 7) as f64, 3e-4 / (1 + r % 5) as f64) } else { (0.31 + (r % 97) as f64 / 300.0, 0.27 + (r % 89) as f64 / 300.0) };
+                                // one cluster in eight is cut: only two of its three rows carry data
+                                let cut = (r >> 45) % 8;
                                 for (dr, f) in [(-1i64, lo), (0, 1.0), (1, hi)] {
+                                    if (cut == 0 && dr == -1) || (cut == 1 && dr == 1) {
+                                        continue;
+                                    }
                                     let ps = p.entry((col, (row as i64 + dr) as usize)).or_insert_with(|| vec![0.0; event_bins]);
                                     for (j, v) in pr.iter().enumerate() {
                                         if bin + j >= event_bins {
